@@ -130,6 +130,14 @@ def run(ctx):
             ctx.violation("C07:iblt-bytes-differ-from-set", "TransactionSet IBLT bytes are not the IBLT of the sender's refs up to the requested page", "iblt-bytes.jsonl",
                           "\n".join(ops[:i + 1][-50:]))
             break
+    for i, l in enumerate(impl):
+        if "!digest-differs-from-stored-set" in l:
+            n_bad += 1
+            sl = [s for s in slices if s[0] <= i <= s[1]]
+            ctx.violation("C07:digests-differ-from-stored-set-after-restart", "after a restart State.XOR / the highest clock loaded from disk are not those of the stored transactions "
+                          "(the node can no longer recognise equality, every IBLT round decodes phantom differences)", "restart-digest.jsonl",
+                          replay_text(ops, header, sl[0][0], i) if sl else ops[i])
+            break
     for i, l in enumerate(model):
         if "ORDER-VIOLATION" in l:
             n_bad += 1
@@ -158,6 +166,8 @@ def run(ctx):
                   "err:add-root", "err:add-payload-hash", "err:parse", "err:iblt", "err:invalid-range", "err:no-payload"):
             if "ret=" + k in l:
                 edges["rejected:" + k] += 1
+        if l.startswith("restart "):
+            edges["node-restart"] += 1
         if l.startswith("conn connected=false"):
             edges["connection-down-or-disconnected"] += 1
         if l.startswith("sent=[] ") and " q=" in l and not l.endswith(" q=0"):
@@ -175,7 +185,7 @@ def run(ctx):
         for f in v.get("features", []):
             if f in ("equal-height-large-diff-on-page>=1", "behind-peer-wide-page0", "many-refs-per-clock", "disjoint-branches"):
                 edges["scenario:" + f] += 1
-    need += ["scenario:equal-height-large-diff-on-page>=1", "scenario:behind-peer-wide-page0"]
+    need += ["scenario:equal-height-large-diff-on-page>=1", "scenario:behind-peer-wide-page0", "node-restart"]
     missing_edges = [e for e in need if edges[e] == 0] if not ctx.replay else []
     ctx.oblige("generator-reaches-the-protocol-edges(quick tier)", not missing_edges, f"edges not reached: {missing_edges}; reached: {dict(edges)}")
 
